@@ -90,6 +90,10 @@ def run(ctx):
         cases = gen_schedules(ctx, 400 if ctx.quick() else 6000)
         corr_schedules(ctx, 'Lfq.v vs static/rculfqueue.h', impl, model, cases, canon_c,
                        oracle=lambda p, s, cl, raw: oracle(ctx, p, s, cl, raw), nontrivial=contended, tail='012345' * 150, scenario='scen_lfq')
+    pimpl = build_scenario(ctx, 'scen_lfq_plain', 'scen_lfq.c', plain=True)     # plain stores (node initialisation) as scheduling points: oracle only
+    if pimpl and impl:
+        corr_schedules(ctx, 'rculfqueue with instrumented plain stores', pimpl, None, cases[::3 if ctx.quick() else 2], canon_c,
+                       oracle=lambda p, s, cl, raw: oracle(ctx, p, s, cl, raw), nontrivial=contended, tail='012345' * 150, scenario='scen_lfq_plain (oracle only)')
     return finish(ctx, trusted=TRUSTED,
                   rule='schedules = corpus + parking sweeps (each thread frozen after k of its steps while the others complete) + bursty random; '
                        'non-trivial = trace contains at least one failed cmpxchg (contention); distinct = distinct canonical traces')
